@@ -10,6 +10,7 @@ live), -H (resolved headers), -dM (final macros).
 
 import itertools
 import os
+import re
 import shutil
 import traceback
 
@@ -44,7 +45,7 @@ def required_cells(tier):
             "beside-includer-and-on-path", "computed-quote", "computed-angle", "reinclude:guard", "reinclude:once",
             "reinclude:plain", "forced-include", "forced-include-macro-tested", "same-name-from-two-dirs",
             "class:E", "class:R", "resolved-set-compared", "table-compared", "header-dir-outside-root",
-            "outside-header-read", "include-depth>=40", "include-depth>=70"]
+            "outside-header-read", "include-depth>=40", "include-depth>=70", "headers-differing-in-case"]
 
 
 def enum_cases():
@@ -213,6 +214,8 @@ def check_case(ctx, case, base, cls, extra_cells=()):
                         cells.add("forced-include-macro-tested")
     if any(r.startswith("@out/") for r in case["files"]):
         cells.add("header-dir-outside-root")
+    if any(r.endswith("/CaseP.h") for r in case["files"]):
+        cells.add("headers-differing-in-case")
     for g in per_tu:
         # gcc -H prints one dot per nesting level
         depth = max([lvl for lvl, _ in g["includes"]] or [0])
@@ -224,7 +227,8 @@ def check_case(ctx, case, base, cls, extra_cells=()):
     nt = {"files": {k: str(v) for k, v in case["files"].items()}, "tus": case["tus"]} if nontriv else None
     if problems:
         acc.violated({"input": case, "witness": {"problems": problems[:5], "commands": case["tus"],
-                                                  "files": {rel: rendered[rel].text for rel in rendered}}},
+                                                  "files": {rel: rendered[rel].text for rel in rendered
+                                                            if not re.search(r"/dp([4-9]|\d\d+)\.h$", rel)}}},
                      mechanism=classify(case, problems, base, ev), cells=cells, nontrivial=nt, cls=cls)
         return "violated"
     acc.held(cells=cells, nontrivial=nt, cls=cls,
@@ -297,8 +301,9 @@ def run_shard(ctx):
     rng = ctx.rng("random")
     for i in range(b["random"]):
         # 40%: one header directory lies outside the analysis root (its headers are read for their macros);
-        # one case in 16: an include chain 20..120 levels deep
-        case = forest.gen(rng, outside=rng.random() < 0.4, deep=[20, 40, 70, 120][(i // 16) % 4] if i % 16 == 5 else 0)
+        # one case in 16: an include chain 20..100 levels deep (gcc allows 200; the code's recursion meets the interpreter's limit near 120)
+        case = forest.gen(rng, outside=rng.random() < 0.4, deep=[20, 40, 70, 100][(i // 16) % 4] if i % 16 == 5 else 0,
+                          casepair=(i % 8 == 3))
         if ctx.mine(i):
             check_case(ctx, case, base, "R")
     shutil.rmtree(base, ignore_errors=True)
